@@ -345,7 +345,7 @@ fn deep_reads(rep: &mut Rep) {
         for &size in sizes {
             for cap in [1usize, 2, 4096, usize::MAX] {
                 // packets of megabytes arrive byte by byte in the thorough tier only
-                if cap <= 2 && size > 1_000_000 && rep.quick() {
+                if cap <= 2 && size > 1_000_000 && (rep.quick() || (rep.profile == "dev" && size > 2_200_000)) {
                     continue;
                 }
                 let id = format!("deep:{phase:?}:{size}:{cap}");
